@@ -4,6 +4,8 @@ import RxModel.Driver.SuiteSubject
 import RxModel.Driver.SuiteGroupBy
 import RxModel.Driver.SuiteFinalize
 import RxModel.Driver.SuiteFlatten
+import RxModel.Driver.SuiteConvert
+import RxModel.Driver.SuiteShare
 /-
   rxdriver: reads the suite file on stdin, runs the model, prints one line per
   external event — the lines the harness prints for the real code.
@@ -58,6 +60,8 @@ def runCase (c : Case) : List String :=
   | "groupby" => runGroupByCase c.id c.field c.events
   | "finalize" => runFinalizeCase c.id c.field c.events
   | "flatten" => runFlatten c.id c.flavor c.field c.events
+  | "convert" => Conv.runConvertCase c.id c.field c.events
+  | "share" => ShareS.runShareCase c.id c.field c.events
   | s => [s!"{c.id}.0 UNKNOWN-SUITE {s}"]
 
 partial def loop (h : IO.FS.Stream) (out : IO.FS.Stream) (cur : Case) : IO Unit := do
